@@ -71,4 +71,13 @@ CHECKS = {
             dict(name="TestC12SSH", quick=dict(checks=250, timeout=600), thorough=dict(checks=2000, shards=4, timeout=3000)),
             dict(name="TestC12RoundTrip", quick=dict(checks=50000, timeout=600), thorough=dict(checks=500000, shards=4, timeout=3000)),
         ]),
+    "C08": dict(
+        pkg="c08", level="exploration", bins=["dcat"],
+        technique="property-based testing (rapid): generated directory layouts with symlinks/special files, rule lists and requests; oracle = last-match-wins reference model over paths resolved by an independent file-tree model; differential on the set of unique secrets served by the real dcat binary",
+        level_text="Generated trees (symlink chains, loops, links to directories and to /dev/zero, FIFOs, '..' segments, relative paths, globs) and ordered allow/deny rule lists (bare or 'readfiles:'-prefixed, with POSIX classes and literal ':') are checked both at the permission API and end to end: the secrets printed by dcat must be exactly those of the files the model allows.",
+        level_note="Default build (linuxacl tag off). Background users are documented to bypass the rules and are outside the domain; check/open races are outside the quantifier. Invalid rule regexes are outside the domain.",
+        tests=[
+            dict(name="TestC08Verdict", quick=dict(checks=4000, timeout=600), thorough=dict(checks=40000, shards=8, timeout=3000)),
+            dict(name="TestC08E2E", quick=dict(checks=400, timeout=600), thorough=dict(checks=4000, shards=8, timeout=3000)),
+        ]),
 }
